@@ -66,6 +66,9 @@ func Run(id, tier string, seed int64, replayPath string) int {
 			c.R.Tier = t
 		}
 	}
+	if replayPath == "" {
+		c.R.ClearReplays()
+	}
 	rule, exh, assume := chk(c)
 	if replayPath != "" {
 		// A replay re-runs one case; it never rewrites the evidence file.
